@@ -14,7 +14,8 @@ T_QUICK, T_THOROUGH = 70, 1500
 OPS = ["set-scalar", "set-string", "set-array", "set-array-element", "set-nested", "set-ref-same", "set-ref-other",
        "copy", "move", "move-refused-nested", "move-refused-refs", "write-through-shared"]
 FLOORS = {"histories": 1500, "steps": 15000, "object_comparisons": 60000, "renamed_fields_compared": 5000,
-          "growths": 300, "three_level_families": 300, "nested_copy_duplicated_referent": 100}
+          "growths": 300, "three_level_families": 300, "nested_copy_duplicated_referent": 100,
+          "copy_duplicated_referent": 150}
 FLOORS.update({"op:" + o: 250 for o in OPS})
 RULE = ("generated hybrid class families (2-3 levels: scalars, strings, numeric arrays of any shape, nested hybrids, "
         "references to hybrids, renamed fields) in two buffers; histories of <=20 steps over {set scalar/string/array/"
@@ -274,8 +275,6 @@ def _step(w, rng, vg, op, tracked, envs, specs, outer, new_obj, hist, viol):
         cand = [x for x in tracked.values() if not x.dead and x.obj is not None]
         t = rng.choice(cand)
         dest = rng.choice(["same", "buffer", "context"])
-        if has_ref(t.spec) and dest != "same":
-            dest = "same"  # references across buffers: the referent is duplicated; kept simple here (C09 covers it)
         if dest == "same":
             c = t.obj.copy(_buffer=t.obj._buffer)
             env = None
@@ -291,6 +290,27 @@ def _step(w, rng, vg, op, tracked, envs, specs, outer, new_obj, hist, viol):
         n = max(tracked) + 1
         nt = T(n, t.spec, copy_model(t.spec, t.mv), c, env or t.env)
         tracked[n] = nt
+        if c._buffer is not t.obj._buffer and has_ref(t.spec):
+            # the copy lives in another buffer: each of its references denotes a duplicate of the referent there
+            def dup(spec, mv):
+                for xn, pn, kind, sub, _dd in spec["fields"]:
+                    if kind == "nested":
+                        dup(sub, mv[xn])
+                    elif kind == "ref" and mv[xn] is not None:
+                        o = tracked[mv[xn]]
+                        k = max(tracked) + 1
+                        m2 = copy_model(sub, o.mv)
+                        tracked[k] = T(k, sub, m2, None, nt.env)
+                        dup(sub, m2)
+                        mv[xn] = k
+                        w.count("copy_duplicated_referent")
+            dup(nt.spec, nt.mv)
+            for pp, xp, spec, mv, obj in subobjects(nt):
+                for xn, pn, kind, sub, _dd in spec["fields"]:
+                    if kind == "ref" and mv[xn] is not None:
+                        ref = getattr(obj, pn)
+                        if ref is not None and ref._buffer is not c._buffer:
+                            viol("reference-of-copy-resolves-outside-its-buffer", f"{'.'.join(pp + [pn])} of the copy ({dest})")
         if env is not None and c._buffer is not env.buf:
             viol("copy-in-wrong-buffer", f"copy({dest})")
         if int(c._offset) == int(t.obj._offset) and c._buffer is t.obj._buffer:
